@@ -54,7 +54,7 @@ pub fn run(world: &World, ctx: &mut Ctx) -> Option<Value> {
         }
     }
     // (b) compile failures of corpus grammars
-    if let Some(v) = super::compile_failures(ctx, &["K5"]) {
+    if let Some(v) = super::compile_failures(ctx, &["K5", "K7"]) {
         return Some(v);
     }
     ctx.ev.extra.insert("corpus_grammars_compiled".into(), json!(world.grammars.len()));
